@@ -78,14 +78,15 @@ def _stack_wiped(block):
 
 
 def _block_wipes(block):
-    """block -> largest wipe length applied to it in this op"""
+    """block -> number of its bytes passed to the injected wipe in this op (one call over the whole block, or several calls
+    over parts of it: `bN` = at its start, `inside-bN` = further in)"""
     out = {}
     for e in _events(block):
         if e.startswith('E zero') and ' stack ' not in e:
-            m = re.search(r'\s(b\d+)\s', e + ' ')
+            m = re.search(r'\s(?:inside-)?(b\d+)\s', e + ' ')
             n = _num.search(e)
             if m and n:
-                out[m.group(1)] = max(out.get(m.group(1), 0), int(n.group(1)))
+                out[m.group(1)] = out.get(m.group(1), 0) + int(n.group(1))
     return out
 
 
